@@ -174,7 +174,11 @@ func (v *Verifier) enumerateCases(fr *FuncRef, fc *FuncContract) []caseSpec {
 				}
 				sort.Strings(ln)
 				for _, n := range ln {
-					lab = append(lab, fmt.Sprintf("len(%s)=%d", n, ls[n]))
+					if ls[n] == -1 {
+						lab = append(lab, fmt.Sprintf("len(%s)=other", n))
+					} else {
+						lab = append(lab, fmt.Sprintf("len(%s)=%d", n, ls[n]))
+					}
 				}
 				l := strings.Join(lab, ",")
 				if l == "" {
@@ -230,6 +234,7 @@ func (ex *Exec) resetPath() {
 	ex.inputs = map[string]*Term{}
 	ex.symCount = 0
 	ex.ordSeen = nil
+	ex.hex = nil
 	for k := range ex.ghost {
 		delete(ex.ghost, k)
 	}
@@ -266,6 +271,22 @@ func (ex *Exec) setupParams(cs caseSpec) []Value {
 				args = append(args, ex.absParamSlice(p.name, u))
 				continue
 			}
+			if n == -1 { // any length not listed in the lens directive
+				ln := Fresh("len("+p.name+")", SInt)
+				ex.st.ranges[ln] = pow2(62)
+				var others []*Term
+				for _, k := range ex.fc.Lens[p.name] {
+					if k >= 0 {
+						others = append(others, Not(Eq(ln, IntI(int64(k)))))
+					}
+				}
+				ex.st.addFact(And(others...), "other length class")
+				o := ex.symObj(p.name, types.NewArray(u.Elem(), 0))
+				o.Pre, o.Param = true, true
+				ex.inputs["len("+p.name+")"] = ln
+				args = append(args, SliceV{Obj: o, Len: 0, Cap: 0, Elem: u.Elem(), SymLen: ln})
+				continue
+			}
 			if n < 0 {
 				args = append(args, SliceV{Elem: u.Elem()})
 				continue
@@ -289,6 +310,7 @@ func (ex *Exec) setupParams(cs caseSpec) []Value {
 				args = append(args, t)
 			case "string":
 				args = append(args, OpaqueV{Kind: "string", Data: p.name})
+				ex.specVarsExtra = append(ex.specVarsExtra, p.name)
 			default:
 				args = append(args, OpaqueV{Kind: "param:" + p.name})
 			}
@@ -579,4 +601,4 @@ func (ex *Exec) atReturn(results []Value) {
 	}
 }
 
-var ghostDecls = map[string]Sort{}
+var ghostDecls = map[string]Sort{"rnd": SInt, "rndfail": SBool}
